@@ -56,7 +56,7 @@ def eval_term(t, env):
             return POS_INF
         if t[1] == '-inf':
             return NEG_INF
-        raise NotParametric('float constant')
+        return ('flt', t[1])   # a finite (or NaN) constant: only comparable for equality with the expected stand-in
     if k == 'op':
         n = t[1]
         if n == 'ref':
